@@ -375,6 +375,7 @@ func init() {
 			done := r.ParallelFor(total, func(idx int) {
 				c := c11Case{Shape: shapes[idx%len(shapes)], Program: programs[idx/len(shapes)]}
 				r.Evals.Add(1)
+				r.Journal(c)
 				r.Transitions.Add(int64(len(c.Program)))
 				r.States.Add(int64(len(c.Program)))
 				ok, sig, detail := c11Eval(c)
